@@ -643,4 +643,204 @@ Proof.
   - destruct (land1_cases (modsqrt (((x ^ 3) mod curve_p + curve_a * x + curve_b) mod curve_p))); [contradiction|assumption].
 Qed.
 
+Lemma skipn_split {A} a b (l : list A) : (a <= b)%nat -> skipn a l = slice a b l ++ skipn b l.
+Proof.
+  intros H. unfold slice. replace (skipn b l) with (skipn (b - a) (skipn a l)).
+  symmetry. apply firstn_skipn. rewrite <- skipn_add. f_equal. lia.
+Qed.
+
+Lemma be_decode_single (l : bytes) : length l = 1%nat -> [n2b (be_decode l)] = l.
+Proof.
+  destruct l as [|b [|c r]]; try discriminate. intros _. unfold be_decode. cbn [rev app le_decode].
+  f_equal. rewrite N.mul_0_r, N.add_0_r. apply n2b_b2n.
+Qed.
+
+Lemma catch_value_inv m o : catch_value m = Ret (Some o) -> m = Ret o.
+Proof. destruct m; cbn; try discriminate. intros H; inversion H; reflexivity. destruct (is_value_error e); discriminate. Qed.
+
+Lemma key_material_private_inv se k : key_material_private mulG se = Ret k -> exists pt, k = Prv se pt.
+Proof.
+  unfold key_material_private. destruct (valid_exponent se); [|discriminate]. destruct (on_curve _); [|discriminate].
+  intros H; inversion H; eauto.
+Qed.
+Lemma key_material_public_inv pt k : key_material_public pt = Ret k -> k = Pub pt.
+Proof. unfold key_material_public. destruct (on_curve _); [|discriminate]. intros H; inversion H; reflexivity. Qed.
+
+(* a 33-byte SEC that decodes re-encodes (compressed) to itself *)
+Lemma sec33_roundtrip sec pt :
+  length sec = 33%nat -> sec_to_public_pair modsqrt sec = Ret pt -> sec_compressed pt = Ret sec.
+Proof.
+  intros L. unfold sec_to_public_pair. destruct (curve_p <=? _); [discriminate|].
+  rewrite L. cbn [Nat.eqb].
+  assert (Hsec : sec = take 1 sec ++ slice 1 33 sec).
+  { unfold take, slice. cbn [Nat.sub]. rewrite (firstn_all2 (n := 32)) by (rewrite skipn_length; lia).
+    symmetry. apply firstn_skipn. }
+  assert (L32 : length (slice 1 33 sec) = 32%nat) by (apply slice_length; lia).
+  set (xs := slice 1 33 sec) in *. set (s0 := take 1 sec) in *.
+  destruct (bytes_eqb s0 [x02]) eqn:E2; cbn [orb negb].
+  - destruct (points_for_x modsqrt (from_bytes xs)) as [pp| |] eqn:P; cbn [bind]; try discriminate.
+    intros H; inversion H; subst pt; clear H. apply points_for_x_shape in P as (X0 & X1 & Y0 & Y1).
+    unfold sec_compressed, pick. rewrite X0, to_from_bytes_32 by exact L32. cbn [bind]. rewrite Y0.
+    apply bytes_eqb_eq in E2. rewrite Hsec, E2. reflexivity.
+  - destruct (bytes_eqb s0 [x03]) eqn:E3; [|discriminate].
+    destruct (points_for_x modsqrt (from_bytes xs)) as [pp| |] eqn:P; cbn [bind]; try discriminate.
+    intros H; inversion H; subst pt; clear H. apply points_for_x_shape in P as (X0 & X1 & Y0 & Y1).
+    unfold sec_compressed, pick. rewrite X1, to_from_bytes_32 by exact L32. cbn [bind]. rewrite Y1.
+    apply bytes_eqb_eq in E3. rewrite Hsec, E3. reflexivity.
+Qed.
+
+Lemma hd_deserialize_payload net kind d o pre' :
+  hd_deserialize mulG modsqrt kind d = Ret o ->
+  (if obj_is_private o then n_hd_prv net kind else n_hd_pub net kind) = Some pre' ->
+  hd_payload net o = Some (pre' ++ skipn 4 d).
+Proof.
+  unfold hd_deserialize. destruct (Nat.eqb (length d) 78) eqn:L; [|discriminate]. cbn [negb].
+  apply Nat.eqb_eq in L.
+  assert (Hsplit : skipn 4 d = slice 4 5 d ++ slice 5 9 d ++ slice 9 13 d ++ slice 13 45 d ++ skipn 45 d).
+  { rewrite (skipn_split 4 5) by lia. f_equal. rewrite (skipn_split 5 9) by lia. f_equal.
+    rewrite (skipn_split 9 13) by lia. f_equal. rewrite (skipn_split 13 45) by lia. reflexivity. }
+  assert (Hdepth : [n2b (be_decode (slice 4 5 d))] = slice 4 5 d) by (apply be_decode_single, slice_length; lia).
+  assert (Hidx : be_encode 4 (be_decode (slice 9 13 d)) = slice 9 13 d).
+  { assert (L4 : length (slice 9 13 d) = 4%nat) by (apply slice_length; lia). rewrite <- L4 at 1. apply be_encode_decode. }
+  assert (Ltail : length (drop 46 d) = 32%nat) by (unfold drop; rewrite skipn_length; lia).
+  assert (Lsec : length (drop 45 d) = 33%nat) by (unfold drop; rewrite skipn_length; lia).
+  assert (Htail : skipn 45 d = slice 45 46 d ++ drop 46 d) by (apply skipn_split; lia).
+  remember (drop 46 d) as tail eqn:Et. remember (drop 45 d) as sec eqn:Es.
+  remember (slice 4 5 d) as s_depth. remember (slice 5 9 d) as s_fp. remember (slice 9 13 d) as s_idx.
+  remember (slice 13 45 d) as s_chain. remember (slice 45 46 d) as s_mark.
+  destruct (bytes_eqb s_mark [x00]) eqn:M.
+  - destruct (key_material_private mulG (from_bytes tail)) as [k| |] eqn:K; cbn [bind]; try discriminate.
+    apply key_material_private_inv in K as [pt ->]. intros [= <-].
+    cbn [obj_is_private]. intros Hp. unfold hd_payload. rewrite Hp.
+    rewrite (to_from_bytes_32 _ Ltail).
+    f_equal. f_equal. rewrite Hsplit, Hdepth, Hidx, Htail. rewrite <- !app_assoc. do 4 f_equal.
+    apply bytes_eqb_eq in M. rewrite M. reflexivity.
+  - destruct (sec_to_public_pair modsqrt sec) as [pt| |] eqn:S; cbn [bind]; try discriminate.
+    destruct (key_material_public pt) as [k| |] eqn:K; cbn [bind]; try discriminate.
+    apply key_material_public_inv in K; subst k. intros [= <-].
+    cbn [obj_is_private]. intros Hp. unfold hd_payload. rewrite Hp.
+    rewrite (sec33_roundtrip _ _ Lsec S).
+    f_equal. f_equal. rewrite Hsplit, Hdepth, Hidx. rewrite <- !app_assoc. rewrite Es. reflexivity.
+Qed.
+
+Lemma hd_reserialize net pre kind d o pre' :
+  hd_of_payload mulG modsqrt (Some pre) kind d = Ret (Some o) ->
+  length pre' = 4%nat ->
+  (if obj_is_private o then n_hd_prv net kind else n_hd_pub net kind) = Some pre' ->
+  hd_payload net o = Some (pre' ++ skipn 4 d) /\
+  hd_of_payload mulG modsqrt (Some pre') kind (pre' ++ skipn 4 d) = Ret (Some o).
+Proof.
+  unfold hd_of_payload at 1. destruct (negb (starts_with pre d)); [discriminate|].
+  intros H L4 Hp. apply catch_value_inv in H. split.
+  - eapply hd_deserialize_payload; eassumption.
+  - unfold hd_of_payload. rewrite starts_with_app_intro. cbn [negb].
+    rewrite <- (hd_deserialize_ext kind d). rewrite H. reflexivity.
+    + unfold hd_deserialize in H. destruct (Nat.eqb (length d) 78) eqn:L; [|discriminate].
+      apply Nat.eqb_eq in L. rewrite app_length, skipn_length. lia.
+    + rewrite <- L4. rewrite skipn_app_exact. reflexivity.
+Qed.
+
 End Reser.
+
+(* ---------------------------------------------------------------------------------------------- *)
+(* kinds are kept apart *)
+Lemma all_kinds_complete k : In k all_kinds.
+Proof. destruct k as [| | |[| |] [|]]; cbn; tauto. Qed.
+
+Lemma kind_eqb_true a b : kind_eqb a b = true -> a = b.
+Proof.
+  destruct a as [| | |k1 p1], b as [| | |k2 p2]; cbn; try discriminate; try reflexivity.
+  intros H. apply andb_prop in H as [H1 H2]. apply Bool.eqb_prop in H1. subst p2.
+  destruct k1, k2; try discriminate; reflexivity.
+Qed.
+
+Lemma lengths_meet_intro n l1 l2 : In n l1 -> In n l2 -> lengths_meet l1 l2 = true.
+Proof.
+  intros H1 H2. unfold lengths_meet. apply existsb_exists. exists n. split; [exact H1|].
+  apply existsb_exists. exists n. split; [exact H2|]. apply Nat.eqb_refl.
+Qed.
+
+Section KindsP.
+Variable mulG : Z -> Z * Z.
+Variable modsqrt : Z -> Z.
+
+Lemma accepted_shape net k d :
+  accepted (parse_kind mulG modsqrt net k d) ->
+  exists pre, kind_prefix net k = Some pre /\ starts_with pre d = true /\ In (length d) (kind_lengths pre k).
+Proof.
+  intros [o H]. destruct k as [| | |kind prv]; cbn [parse_kind kind_prefix] in *.
+  - unfold p2pkh_of_payload, b58_script_of_payload in H. destruct (n_address net) as [pre|]; [|discriminate].
+    exists pre. destruct (starts_with pre d); [|discriminate]. cbn [negb] in H.
+    destruct (Nat.eqb _ _) eqn:L; [|discriminate]. apply Nat.eqb_eq in L.
+    repeat split. cbn. left. lia.
+  - unfold p2sh_of_payload, b58_script_of_payload in H. destruct (n_p2sh net) as [pre|]; [|discriminate].
+    exists pre. destruct (starts_with pre d); [|discriminate]. cbn [negb] in H.
+    destruct (Nat.eqb _ _) eqn:L; [|discriminate]. apply Nat.eqb_eq in L.
+    repeat split. cbn. left. lia.
+  - unfold wif_of_payload in H. destruct (n_wif net) as [pre|]; [|discriminate].
+    exists pre. destruct (starts_with pre d) eqn:S; [|discriminate]. cbn [negb] in H.
+    pose proof (starts_with_length _ _ S) as Lp.
+    unfold drop in H. rewrite !skipn_length in H. repeat split. cbn.
+    destruct (Nat.ltb 32 _).
+    + destruct (Nat.eqb (length d - length pre) 33) eqn:L; [|discriminate]. apply Nat.eqb_eq in L. right; left; lia.
+    + destruct (Nat.eqb (length d - length pre) 32) eqn:L; [|discriminate]. apply Nat.eqb_eq in L. left; lia.
+  - destruct prv; cbn [kind_prefix] in *; unfold hd_of_payload in H.
+    + destruct (n_hd_prv net kind) as [pre|]; [|discriminate]. exists pre.
+      destruct (starts_with pre d); [|discriminate]. cbn [negb] in H. apply catch_value_inv in H.
+      unfold hd_deserialize in H. destruct (Nat.eqb (length d) 78) eqn:L; [|discriminate]. apply Nat.eqb_eq in L.
+      repeat split. cbn. left. lia.
+    + destruct (n_hd_pub net kind) as [pre|]; [|discriminate]. exists pre.
+      destruct (starts_with pre d); [|discriminate]. cbn [negb] in H. apply catch_value_inv in H.
+      unfold hd_deserialize in H. destruct (Nat.eqb (length d) 78) eqn:L; [|discriminate]. apply Nat.eqb_eq in L.
+      repeat split. cbn. left. lia.
+Qed.
+
+Lemma kinds_disjoint net :
+  kinds_separated net = true ->
+  forall d k1 k2, k1 <> k2 ->
+  accepted (parse_kind mulG modsqrt net k1 d) -> accepted (parse_kind mulG modsqrt net k2 d) -> False.
+Proof.
+  intros Hs d k1 k2 Hne A1 A2. unfold kinds_separated in Hs.
+  rewrite forallb_forall in Hs. specialize (Hs k1 (all_kinds_complete k1)).
+  rewrite forallb_forall in Hs. specialize (Hs k2 (all_kinds_complete k2)).
+  apply orb_prop in Hs as [E|Hp]. apply kind_eqb_true in E. contradiction.
+  apply accepted_shape in A1 as (p1 & P1 & S1 & L1). apply accepted_shape in A2 as (p2 & P2 & S2 & L2).
+  unfold pair_separated in Hp. rewrite P1, P2 in Hp.
+  rewrite (starts_with_both_comparable _ _ _ S1 S2), (lengths_meet_intro _ _ _ L1 L2) in Hp. discriminate.
+Qed.
+
+End KindsP.
+
+Lemma table_kinds_separated : forallb kinds_separated table_cfgs = true.
+Proof. vm_compute. reflexivity. Qed.
+
+(* the three segwit forms exclude one another on the same decoded tuple *)
+Lemma segwit_kinds_disjoint net v :
+  (accepted (segwit_of_decoded net 0 20 script_wit0 v) -> accepted (segwit_of_decoded net 0 32 script_wit0 v) -> False) /\
+  (accepted (segwit_of_decoded net 0 20 script_wit0 v) -> accepted (segwit_of_decoded net 1 32 script_p2tr v) -> False) /\
+  (accepted (segwit_of_decoded net 0 32 script_wit0 v) -> accepted (segwit_of_decoded net 1 32 script_p2tr v) -> False).
+Proof.
+  destruct v as [[[hrp version] data] is_m]. unfold segwit_of_decoded, accepted.
+  destruct (n_hrp net); [|repeat split; intros [o H]; discriminate].
+  destruct (negb (text_eqb hrp t)); [repeat split; intros [o H]; discriminate|].
+  repeat split; intros [o1 H1] [o2 H2];
+    destruct (Nat.eqb (length data) 20) eqn:L20; destruct (Nat.eqb (length data) 32) eqn:L32;
+    cbn [negb] in *; try discriminate;
+    try (apply Nat.eqb_eq in L20; apply Nat.eqb_eq in L32; lia);
+    destruct (Z.eqb_spec 0 version); destruct (Z.eqb_spec 1 version); cbn [negb] in *; try discriminate; lia.
+Qed.
+
+(* the decoded tuple is determined by the object: (hrp, version, program, spec) *)
+Lemma segwit_canonical net ver len mk v o :
+  segwit_of_decoded net ver len mk v = Ret (Some o) ->
+  exists hrp data, n_hrp net = Some hrp /\ text_eqb (fst (fst (fst v))) hrp = true /\
+    v = (fst (fst (fst v)), ver, data, negb (ver =? 0)) /\ length data = len /\ o = OContract (mk data).
+Proof.
+  destruct v as [[[hrp version] data] is_m]. unfold segwit_of_decoded.
+  destruct (n_hrp net) as [h|]; [|discriminate].
+  destruct (text_eqb hrp h) eqn:E; [|discriminate]. cbn [negb].
+  destruct (Nat.eqb (length data) len) eqn:L; [|discriminate]. cbn [negb].
+  destruct (Z.eqb_spec ver version); [|discriminate]. subst version. cbn [negb].
+  destruct (ver =? 0), is_m; cbn; try discriminate; intros [= <-];
+    exists h, data; apply Nat.eqb_eq in L; repeat split; auto.
+Qed.
